@@ -71,6 +71,7 @@ class Stats:
         self.nontrivial = set()
         self.classes = collections.Counter()
         self.samples = []
+        self.n_nontrivial_samples = 0
         self.excluded = collections.Counter()
         self.last_failing = None
         self.extra = {}
@@ -84,9 +85,12 @@ class Stats:
             self.excluded[e] += 1
         if verdict.nontrivial:
             self.nontrivial.add(S.digest(case, 16))
-            if len(self.samples) < 4 and verdict.sample is not None:
+            if verdict.sample is not None and self.n_nontrivial_samples < 4:
+                if self.n_nontrivial_samples == 0:
+                    self.samples = []  # drop the trivial placeholder
                 self.samples.append(verdict.sample)
-        elif not self.samples and verdict.sample is not None and self.cases > 50:
+                self.n_nontrivial_samples += 1
+        elif not self.samples and verdict.sample is not None:
             self.samples.append(verdict.sample)
 
     def to_json(self):
